@@ -71,7 +71,7 @@ def func_fit(x, y, ncoeff, invvar=None, function_name='legendre', ia=None, input
         nparams = len(nonfix)
         fixed = (~ia[0:ncfit]).nonzero()[0]
         if len(fixed) > 0:
-            yfix = np.dot(legarr.T, inputans[0:ncfit])
+            yfix = np.dot(legarr.T, inputans * (1 - ia))
             ysub = y - yfix
             finalarr = legarr[nonfix, :]
         else:
